@@ -28,7 +28,7 @@ void Programm_Beenden(ddpint code) {
 }
 
 void Laufzeitfehler(ddpstring *Nachricht, ddpint code) {
-	ddp_runtime_error(code, Nachricht->str);
+	ddp_runtime_error(code, DDP_STRING_FMT, DDP_STRING_CSTR(Nachricht));
 }
 
 ddpbool Ist_Befehlszeile(void) {
